@@ -138,9 +138,20 @@ def write_opens(ck, fa):
     or a staging name)."""
     out = {"pointer": [], "object": []}
     for c in fa.calls():
-        if A.call_attr(c) in ("open",) + ONESHOT and c in ck.cg.fs_write_sites.get(fa.qual, []) and fa.nodes(c):
+        if not fa.nodes(c):
+            continue
+        if (A.call_attr(c) in ("open",) + ONESHOT and c in ck.cg.fs_write_sites.get(fa.qual, [])) or _fileio_writes(c):
             out["pointer" if path_role(fa, open_path(c), fa.nodes(c)[0]) == "pointer" else "object"].append(c)
     return out
+
+
+def _fileio_writes(c):
+    """io.FileIO(path, <mode that may write>)"""
+    if A.call_attr(c) != "FileIO":
+        return False
+    mode = A.arg_or_kw(c, 1, "mode")
+    m = A.const_str(mode) if mode is not None else "r"
+    return m is None or any(ch in m for ch in "wax+")
 
 
 def pointer_writers(ck):
@@ -186,7 +197,16 @@ def _output_order(ck, R):
     okm = bool(mk) and bool(wopen) and all(fo.cfg.must_pass(fo.nodes_all(mk), i) for i in fo.nodes_all(wopen))
     ck.ob(R, fo.key(None, "mkdir-before-open"), okm, "version directory created before the object is opened" if okm else
           "the object can be opened before its version directory exists", fo.where())
-    okp = bool(pub) and bool(copy) and all(fo.cfg.must_pass(fo.nodes_all(copy), i) for i in fo.nodes_all(pub))
+    # a loop that writes the object chunk by chunk is one write phase: passing its head counts (it may run zero times
+    # for empty data)
+    phase = list(fo.nodes_all(copy))
+    for c in copy:
+        lp = fo.enclosing(c, (ast.For, ast.While))
+        while lp is not None:
+            phase += [i for i in list(fo.cfg.nodes_of(lp)) + (list(fo.cfg.nodes_of(lp.test)) if isinstance(lp, ast.While) else [])
+                      if i in fo.cfg.reachable_nodes()]
+            lp = fo.enclosing(lp, (ast.For, ast.While))
+    okp = bool(pub) and bool(copy) and all(fo.cfg.must_pass(phase, i) for i in fo.nodes_all(pub))
     # and the publication is outside every `with` that holds the object open
     for p in pub:
         if any(holds_object(w) for w in _with_ancestors(fo, p)):
@@ -372,6 +392,32 @@ def _handler_appends_none(fa, handler, read_call):
     return ok
 
 
+def _is_returned_element(fa, A0, call):
+    """Is the value of `call` the per-element answer of a comprehension / generator expression whose value the
+    function returns (directly, through list()/tuple() and plain temporaries)?  This is the comprehension
+    spelling of `for x in xs: results.append(call)`; `return results`."""
+    def branches(e):
+        return branches(e.body) + branches(e.orelse) if isinstance(e, ast.IfExp) else [e]
+
+    comps = [x for x in A.walk_body(fa.fi.node) if isinstance(x, (ast.ListComp, ast.GeneratorExp))
+             and any(b is call for b in branches(x.elt))]
+    if not comps:
+        return False
+
+    def is_comp(e, n, dep=4):
+        while isinstance(e, ast.Call) and isinstance(e.func, ast.Name) and e.func.id in ("list", "tuple") and len(e.args) == 1 and not e.keywords:
+            e = e.args[0]
+        if any(e is c for c in comps):
+            return True
+        if isinstance(e, ast.Name) and dep > 0:
+            leaves = A0.cases(e, n, fa.df.IN)
+            return bool(leaves) and not any(x is e for (x, _) in leaves) and all(is_comp(x, m, dep - 1) for (x, m) in leaves)
+        return False
+
+    rets = [(r, i) for r in fa.returns() if r.value is not None for i in fa.nodes(r)]
+    return bool(rets) and all(is_comp(x, m) for (r, i) in rets for (x, m) in A0.cases(r.value, i, fa.df.IN))
+
+
 def _is_valid_flag(fa, x, node_id, depth=5):
     """Does expression `x` read the valid flag of process_existing_memento's answer: `<r>.valid_result`, `<r>[1]`,
     or the second name of `value, valid = <r>` (r depending on that call)?"""
@@ -465,7 +511,7 @@ def check_recovery(ck):
                         ok = bool(vals) and not raises and all(A.is_none(e) for (e, n, IN) in vals)
                         appended = [a for a in gm.calls("append") if len(a.args) == 1 and gm.nodes(a)
                                     and any(e is call for (e, _) in A0.cases(a.args[0], gm.nodes(a)[0], gm.df.IN))]
-                        ok = ok and bool(appended)
+                        ok = ok and (bool(appended) or _is_returned_element(gm, A0, call))
                     ck.ob(R, fh.key(c, "unreadable-means-absent"), ok, "an unreadable memento counts as absent" if ok else
                           "an I/O error while reading a memento escapes get_mementos", fh.where(c))
                     rm = None
@@ -563,6 +609,206 @@ def check_readers_validate(ck):
           "is_memoized does not consult the metadata source's validated presence test", im.where())
 
 
+STORAGE_LAYER = ("storage_filesystem.", "storage_base.")
+REBUFFER = ("BufferedWriter", "BufferedRandom")      # io.BufferedWriter(raw): flushes until everything is written or an error is raised
+PASSIVE = ("close", "flush", "fileno", "seek", "tell", "truncate", "closed", "name", "mode", "writable", "seekable", "readable",
+           "isatty", "__enter__", "__exit__", "read", "readinto", "readall")
+
+
+def _fold_int(e):
+    """Value of a constant integer expression (literals, unary minus, + - * // << of such), else None."""
+    if isinstance(e, ast.Constant) and isinstance(e.value, int):
+        return int(e.value)
+    if isinstance(e, ast.UnaryOp) and isinstance(e.op, (ast.USub, ast.UAdd)):
+        v = _fold_int(e.operand)
+        return None if v is None else (-v if isinstance(e.op, ast.USub) else v)
+    if isinstance(e, ast.BinOp):
+        a, b = _fold_int(e.left), _fold_int(e.right)
+        if a is None or b is None:
+            return None
+        try:
+            if isinstance(e.op, ast.Add):
+                return a + b
+            if isinstance(e.op, ast.Sub):
+                return a - b
+            if isinstance(e.op, ast.Mult):
+                return a * b
+            if isinstance(e.op, ast.FloorDiv):
+                return a // b
+            if isinstance(e.op, ast.LShift) and 0 <= b < 64:
+                return a << b
+            if isinstance(e.op, ast.Pow) and 0 <= b < 64:
+                return a ** b
+        except (ZeroDivisionError, OverflowError):
+            return None
+    return None
+
+
+def _int_value(fa, e, at):
+    """The integer an expression denotes when that is decidable: through local temporaries and module-level
+    constants of the function's module."""
+    try:
+        x = fa.expand(e, at)
+    except Exception:  # noqa - an expression the expander cannot place
+        x = e
+    v = _fold_int(x)
+    if v is None and isinstance(x, ast.Name) and not fa.df.is_local(x.id):
+        mv = fa.fi.module.assigns.get(x.id)
+        if mv is not None:
+            v = _fold_int(mv)
+    return v
+
+
+def write_handle_kind(fa, c):
+    """What kind of writable stream a call creates: None (not a write-mode open), 'buffered' (a BufferedWriter /
+    TextIOWrapper over one: write() accepts everything and an error of the device surfaces from write, flush or
+    close), 'raw' (an unbuffered file: write() is ONE write(2) which may accept only a prefix and says so only
+    in the count it returns), 'maybe-raw' (the buffering argument cannot be shown to be non-zero)."""
+    from ..callgraph import _open_mode_writes
+    if not fa.nodes(c):
+        return None
+    at = fa.nodes(c)[0]
+    name = A.call_attr(c)
+    d = A.call_dotted(c) or ""
+    if name in ONESHOT and c in fa.ck.cg.fs_write_sites.get(fa.qual, []):
+        return "buffered"
+    if name == "FileIO":
+        mode = A.arg_or_kw(c, 1, "mode")
+        m = A.const_str(mode) if mode is not None else "r"
+        return "raw" if m is None or any(ch in m for ch in "wax+") else None
+    if name == "fdopen":
+        mode = A.arg_or_kw(c, 1, "mode")
+        m = A.const_str(mode) if mode is not None else "r"
+        if m is not None and not any(ch in m for ch in "wax+"):
+            return None
+        buf = A.arg_or_kw(c, 2, "buffering")
+    elif name == "open" and d != "os.open":
+        if not _open_mode_writes(c):
+            return None
+        plain = isinstance(c.func, ast.Name) or d in ("io.open", "builtins.open")
+        buf = A.arg_or_kw(c, 2 if plain else 1, "buffering")
+    else:
+        return None
+    if buf is None:
+        return "buffered"
+    v = _int_value(fa, buf, at)
+    if v is None:
+        return "maybe-raw"
+    return "raw" if v == 0 else "buffered"
+
+
+def _count_observed(fa, w):
+    """Is the value a raw write returns (the number of bytes accepted) used: not an expression statement, and
+    when it is stored in a local, that local is read afterwards."""
+    p = fa.pm.get(w)
+    if isinstance(p, ast.Expr):
+        return False
+    if isinstance(p, (ast.Assign, ast.AnnAssign, ast.NamedExpr)) and p.value is w:
+        tg = p.targets if isinstance(p, ast.Assign) else [p.target]
+        names = [t.id for t in tg if isinstance(t, ast.Name)]
+        if len(names) != len(tg):
+            return True         # stored in a field / container: somebody may look at it
+        for x in A.walk_body(fa.node):
+            if isinstance(x, ast.Name) and isinstance(x.ctx, ast.Load) and x.id in names:
+                for i in fa.nodes(x):
+                    if any(dd.value is w for dd in fa.df.reaching(i, x.id)):
+                        return True
+        return False
+    return True
+
+
+def _raw_handle_faults(fa, c):
+    """Ways in which bytes written through the raw stream created by call `c` can be dropped unnoticed:
+    a write whose count is discarded, or the stream handed to code that discards it (copyfileobj, dump, ...)."""
+    faults = []
+
+    def use(node, via):
+        """`node` evaluates to the raw stream; how is that value used?"""
+        p = fa.pm.get(node)
+        if isinstance(p, ast.withitem) and p.context_expr is node:
+            names = [t.id for t in ([p.optional_vars] if p.optional_vars is not None else []) if isinstance(t, ast.Name)]
+            return names
+        if isinstance(p, (ast.Assign, ast.AnnAssign, ast.NamedExpr)) and p.value is node:
+            tg = p.targets if isinstance(p, ast.Assign) else [p.target]
+            names = [t.id for t in tg if isinstance(t, ast.Name)]
+            if len(names) != len(tg):
+                faults.append((node, "the unbuffered stream is stored away (%s)" % A.short(p, 50)))
+            return names
+        if isinstance(p, ast.Attribute) and p.value is node:
+            g = fa.pm.get(p)
+            called = isinstance(g, ast.Call) and g.func is p
+            if p.attr == "write" and called:
+                if not _count_observed(fa, g):
+                    faults.append((g, "`%s` is a single write(2) whose count is ignored" % A.short(g, 50)))
+            elif p.attr in PASSIVE:
+                pass
+            else:
+                faults.append((p, "`%s` on the unbuffered stream does not report a partial write" % A.short(g if called else p, 50)))
+            return []
+        if isinstance(p, ast.Call) and (node in p.args or any(k.value is node for k in p.keywords)):
+            if A.call_attr(p) in REBUFFER:
+                return []
+            faults.append((p, "`%s` writes to the unbuffered stream and ignores the count each write returns" % A.short(p, 50)))
+            return []
+        if isinstance(p, (ast.Expr, ast.Compare, ast.BoolOp, ast.UnaryOp, ast.If, ast.While, ast.Assert)):
+            return []
+        faults.append((node, "the unbuffered stream escapes (%s)" % A.short(p if p is not None else node, 50)))
+        return []
+
+    tracked = []      # (name, origin value node) — definitions that hold the raw stream
+    todo = [(c, n) for n in use(c, None)]
+    seen = set()
+    while todo:
+        origin, name = todo.pop()
+        if (id(origin), name) in seen:
+            continue
+        seen.add((id(origin), name))
+        tracked.append((name, origin))
+        for x in A.walk_body(fa.node):
+            if isinstance(x, ast.Name) and isinstance(x.ctx, ast.Load) and x.id == name:
+                ids = fa.nodes(x)
+                if ids and any(dd.value is origin for i in ids for dd in fa.df.reaching(i, name)):
+                    for n2 in use(x, name):
+                        todo.append((x, n2))
+    return faults
+
+
+def check_complete_or_raise(ck):
+    R = "C08.R6"
+    ck.rule(R, "a fault in the middle of writing a file is REPORTED: bytes go to the store through a buffered stream (which "
+               "keeps writing until all is accepted or the device's error is raised), or the count returned by every raw "
+               "write (unbuffered file, os.write) is looked at", 2)
+    for q in sorted(ck.cg.funcs):
+        if not q.startswith(STORAGE_LAYER):
+            continue
+        fi = ck.cg.funcs[q]
+        cands = [c for c in A.body_calls(fi.node) if A.call_attr(c) in ("open", "FileIO", "fdopen", "write") + ONESHOT]
+        if not cands:
+            continue
+        fa = FA(ck, fi)
+        for c in cands:
+            if A.call_attr(c) == "write":
+                if A.call_dotted(c) == "os.write" and fa.nodes(c):
+                    ok = _count_observed(fa, c)
+                    ck.ob(R, fa.key(c, "raw-write-count"), ok, "the count returned by os.write is used" if ok else
+                          "os.write may accept only part of the bytes (disk full / file size limit reached in the middle) and reports that "
+                          "only through the count it returns, which is ignored here: a truncated file is then published as complete", fa.where(c))
+                continue
+            kind = write_handle_kind(fa, c)
+            if kind is None:
+                continue
+            if kind == "buffered":
+                ck.ob(R, fa.key(c, "complete-or-raise"), True, "written through a buffered stream", fa.where(c))
+                continue
+            faults = _raw_handle_faults(fa, c)
+            how = "unbuffered (buffering=0 / FileIO)" if kind == "raw" else "possibly unbuffered (its buffering argument is not a known non-zero constant)"
+            ck.ob(R, fa.key(c, "complete-or-raise"), not faults, "every raw write's count is observed" if not faults else
+                  "the file is opened %s and %s: when the disk fills up or the file size limit is hit in the middle of the data, the kernel "
+                  "accepts a prefix and raises nothing, so the truncated file is closed, published and reused by every later call instead of "
+                  "the write failing (and being absorbed as an I/O error)" % (how, "; ".join(m for (_, m) in faults[:3])),
+                  fa.where(faults[0][0]) if faults else fa.where(c))
+
+
 def check(ck):
     from .memo import check_new_memo_tables
     ck.run(check_new_memo_tables, ck, "C08.M1", ('storage_base', 'storage_filesystem'))
@@ -573,3 +819,4 @@ def check(ck):
     ck.run(check_pointer_trust, ck)
     ck.run(check_recovery, ck)
     ck.run(check_readers_validate, ck)
+    ck.run(check_complete_or_raise, ck)
